@@ -1,11 +1,13 @@
 #!/bin/sh
-# usage: tools/try_patch.sh <patch.diff> <check id>...   applies the patch to /repo, runs the checks, reverts
+# usage: tools/try_patch.sh <patch.diff> <check id>...
+# applies the patch to a scratch worktree of /repo's HEAD, runs the checks against it (VERIF_REPO), removes the worktree.
+# (equivalent to `git -C /repo apply` + `git -C /repo checkout -- .`, but does not disturb runs that use /repo meanwhile)
 P="$1"; shift
-cd /repo || exit 2
-if [ -n "$(git status --porcelain --untracked-files=no)" ]; then echo "repo dirty"; exit 2; fi
-git apply "$P" || { echo "patch does not apply"; exit 2; }
+WT=/tmp/try_patch_$$
+git -C /repo worktree add -q --detach "$WT" HEAD || exit 2
+( cd "$WT" && git apply "$P" ) || { echo "patch does not apply"; git -C /repo worktree remove --force "$WT"; exit 2; }
 for id in "$@"; do
-  echo "== $id with $(basename $P)"
-  ( cd /verif && ./check "$id" 2>&1 | grep -E "clauses:|: ok|MACHINERY|violation\(s\)" | cut -c1-220 | head -6 ; )
+  echo "== $id with $(basename $(dirname $P))/$(basename $P)"
+  ( cd /verif && VERIF_REPO="$WT" VERIF_NOEVIDENCE=1 ./check "$id" 2>&1 | grep -E "clauses:|: ok|MACHINERY|violation\(s\)" | cut -c1-220 | head -6 ; )
 done
-cd /repo && git checkout -- . 
+git -C /repo worktree remove --force "$WT"
